@@ -1,8 +1,23 @@
-import EphVerif.Model.Control
+/-
+C27 — a configured control token gates STORE, FETCH and STOP.
+
+Full statement proved here (`gate`): for every node behaviour `ops`, hash function, configuration
+with token `t`, instant, peer address, daemon state `st` and parsed request whose COMMAND is STORE,
+FETCH or STOP (any letter case): if the request's TOKEN header is not exactly `t` (missing, prefix,
+suffix, case change, anything else) the daemon answers STATUS:ERROR with the command's
+`*_UNAUTHENTICATED` code and its state is *identical* afterwards: nothing stored, no manifest
+registered, no file written (all of these live in `st.node`), no rate-limit slot used, the stop
+callback not invoked and the transport not stopped.  `gate_stream` lifts this to the bytes of a
+connection: if no LF-delimited line of the stream is a `TOKEN:t` header (CR ignored, key in any
+letter case) then the request `parse_request` builds from it has no such TOKEN.
+-/
+import EphVerif.Lemmas.C27Basics
+import EphVerif.Lemmas.C27Lines
 import EphVerif.Spec.Control
 import EphVerif.Generated.C27
 
 namespace EphVerif.C27
+open EphVerif.Control
 
 /-- (T) in `handle_store` the token comparison precedes every effect call -/
 theorem store_gate_precedes_effects : Gen.C27.storeGateFirst = 1 := by decide
@@ -10,5 +25,158 @@ theorem store_gate_precedes_effects : Gen.C27.storeGateFirst = 1 := by decide
 theorem fetch_gate_precedes_effects : Gen.C27.fetchGateFirst = 1 := by decide
 /-- (T) in `handle_stop` the token comparison precedes every effect call -/
 theorem stop_gate_precedes_effects : Gen.C27.stopGateFirst = 1 := by decide
+
+/-- `constant_time_equal` decides equality of byte strings -/
+theorem token_compare_exact (expected provided : Bytes) : constantTimeEqual expected provided = true ↔ expected = provided :=
+  constantTimeEqual_iff expected provided
+
+/-- the token test fails for every request that does not carry exactly the configured token -/
+theorem checkToken_refuses {cfg : Config} {t : Bytes} (ht : cfg.token = some t) {fields : Fields}
+    (hl : getField fields (ascii "TOKEN") ≠ some t) : checkToken cfg fields ≠ .ok := by
+  unfold checkToken checkToken.getLast
+  rw [ht]
+  cases hg : getField fields (ascii "TOKEN") with
+  | none => simp
+  | some v =>
+    have hne : t ≠ v := fun h => hl (by rw [hg, h])
+    have : constantTimeEqual t v = false := by
+      cases hc : constantTimeEqual t v with
+      | false => rfl
+      | true => exact absurd ((constantTimeEqual_iff t v).mp hc) hne
+    simp [this]
+
+/-- the command names of the gated handlers and their authentication error -/
+def authCode (command : Bytes) : Option String :=
+  if command = ascii "STORE" then some "ERR_STORE_UNAUTHENTICATED"
+  else if command = ascii "FETCH" then some "ERR_FETCH_UNAUTHENTICATED"
+  else if command = ascii "STOP" then some "ERR_STOP_UNAUTHENTICATED"
+  else none
+
+/-- **C27.gate** -/
+theorem gate {ν : Type} (sha : Bytes → Bytes) (ops : NodeOps ν) (cfg : Config) (t : Bytes) (now : Int) (addr : Bytes)
+    (st : ServerState ν) (req : Request) (c : Bytes) (code : String)
+    (ht : cfg.token = some t)
+    (hc : getField req.fields (ascii "COMMAND") = some c)
+    (hcmd : authCode (toUpper c) = some code)
+    (hl : getField req.fields (ascii "TOKEN") ≠ some t) :
+    handleRequest sha ops cfg now addr st req = (st, err code) ∧ Spec.Control.isAuthError false code = true := by
+  have hno := checkToken_refuses ht hl
+  have n1 : ascii "STORE" ≠ ascii "STOP" := by decide
+  have n2 : ascii "FETCH" ≠ ascii "STOP" := by decide
+  have n3 : ascii "FETCH" ≠ ascii "STORE" := by decide
+  unfold authCode at hcmd
+  unfold handleRequest
+  rw [hc]
+  by_cases h2 : toUpper c = ascii "STORE"
+  · have hcode : code = "ERR_STORE_UNAUTHENTICATED" := by
+      rw [h2] at hcmd; simpa using hcmd.symm
+    subst hcode
+    refine ⟨?_, by decide⟩
+    simp only [h2, n1, ↓reduceIte]
+    unfold handleStore
+    simp [hno]
+  · by_cases h3 : toUpper c = ascii "FETCH"
+    · have hcode : code = "ERR_FETCH_UNAUTHENTICATED" := by
+        rw [h3] at hcmd; simpa [n3] using hcmd.symm
+      subst hcode
+      refine ⟨?_, by decide⟩
+      simp only [h3, n2, n3, ↓reduceIte]
+      unfold handleFetch
+      simp [hno]
+    · by_cases h1 : toUpper c = ascii "STOP"
+      · have hcode : code = "ERR_STOP_UNAUTHENTICATED" := by
+          rw [h1] at hcmd; simpa [n1.symm, n2.symm] using hcmd.symm
+        subst hcode
+        refine ⟨?_, by decide⟩
+        simp only [h1, ↓reduceIte]
+        unfold handleStop
+        simp [hno]
+      · simp [h1, h2, h3] at hcmd
+
+/-- the fields of a successfully parsed request -/
+theorem parse_ok_fields {cap : Nat} {input unread : Bytes} {req : Request}
+    (hp : parseRequest cap input = .ok req unread) :
+    req.fields = (lineLoop serverMaxLine (reqLine cap) input [] 0 {}).1.fields := by
+  unfold parseRequest at hp
+  rcases hres : lineLoop serverMaxLine (reqLine cap) input [] 0 {} with ⟨st, e, rest⟩
+  rw [hres] at hp
+  simp only at hp
+  split at hp
+  · simp at hp
+  · split at hp
+    · simp at hp
+    · split at hp
+      · split at hp
+        · simp at hp
+        · injection hp with h1 _; rw [← h1]
+      · injection hp with h1 _; rw [← h1]
+
+/-- **C27.gate, on the bytes of a connection**: if no LF-delimited line of the stream is the header
+    `TOKEN:t` (CR ignored, key in any letter case), the request built from it carries no such token -/
+theorem gate_stream {cap : Nat} {t input unread : Bytes} {req : Request}
+    (hp : parseRequest cap input = .ok req unread)
+    (hnot : Spec.Control.presentsToken (splitBy 10 input []) t = false) :
+    getField req.fields (ascii "TOKEN") ≠ some t := by
+  intro hg
+  have hm := getField_eq_some hg
+  rw [parse_ok_fields hp] at hm
+  rcases lineLoop_fields_from_lines cap serverMaxLine input [] [] 0 {} rfl _ hm with h | ⟨l, hl, hh⟩
+  · simp at h
+  · have : Spec.Control.presentsToken (splitBy 10 input []) t = true := by
+      unfold Spec.Control.presentsToken
+      rw [List.any_eq_true]
+      exact ⟨l, hl, by rw [hh]; simp [ascii, Spec.Control.asciiBytes]⟩
+    rw [this] at hnot; exact absurd hnot (by decide)
+
+/-- **C27.gate for a whole connection**: what `handle_client` does with a byte stream that parses
+    into a STORE / FETCH / STOP request and contains no `TOKEN:t` line -/
+theorem gate_connection {ν : Type} (sha : Bytes → Bytes) (ops : NodeOps ν) (cfg : Config) (t : Bytes) (now : Int) (addr : Bytes)
+    (st : ServerState ν) (input unread : Bytes) (req : Request) (c : Bytes) (code : String)
+    (ht : cfg.token = some t)
+    (hp : parseRequest cfg.cap input = .ok req unread)
+    (hc : getField req.fields (ascii "COMMAND") = some c)
+    (hcmd : authCode (toUpper c) = some code)
+    (hnot : Spec.Control.presentsToken (splitBy 10 input []) t = false) :
+    handleClient sha ops cfg now addr st input = (st, some (err code)) ∧ Spec.Control.isAuthError false code = true := by
+  have hg := gate sha ops cfg t now addr st req c code ht hc hcmd (gate_stream hp hnot)
+  refine ⟨?_, hg.2⟩
+  unfold handleClient
+  rw [hp]
+  simp only [hg.1]
+
+/-- a request that never reached a handler (parse error, connection closed) changes nothing either -/
+theorem unparsed_has_no_effect {ν : Type} (sha : Bytes → Bytes) (ops : NodeOps ν) (cfg : Config) (now : Int) (addr : Bytes)
+    (st : ServerState ν) (input : Bytes) (h : ∀ req unread, parseRequest cfg.cap input ≠ .ok req unread) :
+    (handleClient sha ops cfg now addr st input).1 = st := by
+  unfold handleClient
+  cases hp : parseRequest cfg.cap input with
+  | closed => rfl
+  | error code u => rfl
+  | ok req u => exact absurd hp (h req u)
+
+/-! ## non-vacuity -/
+
+/-- a FETCH with an OUT path and a token that is a proper prefix of the configured one -/
+example : ∃ req : Request, getField req.fields (ascii "COMMAND") = some (ascii "fetch") ∧
+    authCode (toUpper (ascii "fetch")) = some "ERR_FETCH_UNAUTHENTICATED" ∧
+    getField req.fields (ascii "TOKEN") ≠ some (ascii "secret") :=
+  ⟨{ fields := [(ascii "COMMAND", ascii "fetch"), (ascii "TOKEN", ascii "secre"), (ascii "OUT", ascii "/tmp/x")] },
+   by decide, by decide, by decide⟩
+
+/-- the same stream is accepted by the token test once it carries the exact token: the gate is not
+    simply closed -/
+example : checkToken { token := some (ascii "secret"), powDifficulty := 0, cap := 10, minTtl := 1, maxTtl := 2, defaultTtl := 1 }
+    [(ascii "TOKEN", ascii "secret")] = .ok := by decide
+
+/-- does the stream parse into a request with this COMMAND value? -/
+def parsesToCommand (cap : Nat) (input c : Bytes) : Bool :=
+  match parseRequest cap input with
+  | .ok req _ => getField req.fields (ascii "COMMAND") == some c
+  | _ => false
+
+/-- a byte stream without any `TOKEN:secret` line that parses into a STOP request -/
+example : Spec.Control.presentsToken (splitBy 10 (ascii "COMMAND:stop\ntoken:Secret\n\n") []) (ascii "secret") = false ∧
+    parsesToCommand 10 (ascii "COMMAND:stop\ntoken:Secret\n\n") (ascii "stop") = true := by
+  decide
 
 end EphVerif.C27
